@@ -44,15 +44,15 @@ class Acc(object):
     def violation(self, kind, case, expected=None, got=None):
         self.d['nviol'] += 1
         if len(self.d['violations']) < 5:
-            self.d['violations'].append({'kind': kind, 'case': case,
-                                         'expected': expected, 'got': got})
+            self.d['violations'].append({'kind': kind, 'case': jsonable(case),
+                                         'expected': jsonable(expected), 'got': jsonable(got)})
 
     def finding(self, fid, case, expected=None, got=None):
         f = self.d['findings'].setdefault(fid, {'count': 0, 'example': None})
         f['count'] += 1
         if f['example'] is None:
-            f['example'] = {'kind': 'finding:' + fid, 'case': case,
-                            'expected': expected, 'got': got}
+            f['example'] = {'kind': 'finding:' + fid, 'case': jsonable(case),
+                            'expected': jsonable(expected), 'got': jsonable(got)}
 
     def harness_error(self, msg):
         if len(self.d['harness_errors']) < 5:
@@ -75,8 +75,13 @@ def _worker_init(deadline):
     sys.stdout = io.StringIO()
 
 
+_HISTORY = []
+
+
 def _run_shard(args):
     prop_id, tier, seed, shard = args
+    earlier = list(_HISTORY)
+    _HISTORY.append(shard)
     try:
         mod = importlib.import_module('mc.props.' + prop_id)
         acc = Acc()
@@ -84,6 +89,16 @@ def _run_shard(args):
             sys.stdout.seek(0)
             sys.stdout.truncate()
         mod.run_shard(shard, tier, seed, acc)
+        for v in acc.d['violations']:
+            v['shard'] = shard
+            v['tier'] = tier
+            v['seed'] = seed
+            v['worker_history'] = earlier
+        for f in acc.d['findings'].values():
+            if f['example'] is not None:
+                f['example']['shard'] = shard
+                f['example']['tier'] = tier
+                f['example']['seed'] = seed
         return acc.d
     except Exception:
         acc = Acc()
@@ -123,7 +138,29 @@ def jsonable(x):
     return repr(x)
 
 
-def do_replay(mod, prop_id, path):
+def _replay_stage(mod, art, stage):
+    """Run one replay stage in THIS (fresh) process and return the observation dict."""
+    if stage == 'case':
+        return mod.replay(art)
+    tier, seed = art.get('tier', 'quick'), art.get('seed', 0)
+    if stage == 'history':
+        for sh in art.get('worker_history') or []:
+            mod.run_shard(sh, tier, seed, Acc())
+    acc = Acc()
+    mod.run_shard(art['shard'], tier, seed, acc)
+    want = json.dumps(jsonable(art.get('case')), sort_keys=True)
+    hits = [v for v in acc.d['violations']
+            if json.dumps(jsonable(v['case']), sort_keys=True) == want
+            and v['kind'] == art.get('kind')]
+    if hits:
+        return {'violates': True, 'history_dependent': True, 'stage': stage,
+                'note': 'reproduces only after the preceding calls of its shard / worker (state '
+                        'leaking between calls); replayed by re-running that call history',
+                'expected': hits[0].get('expected'), 'got': hits[0].get('got')}
+    return {'violates': False, 'stage': stage}
+
+
+def do_replay(mod, prop_id, path, stage=None):
     with open(path) as fh:
         art = json.load(fh)
     from . import lib
@@ -131,9 +168,27 @@ def do_replay(mod, prop_id, path):
     real_stdout = sys.stdout
     sys.stdout = io.StringIO()
     try:
-        res = mod.replay(art)
+        res = _replay_stage(mod, art, stage or 'case')
     finally:
         sys.stdout = real_stdout
+    if stage is not None:
+        print('STAGE-RESULT %s' % json.dumps(jsonable(res), sort_keys=True))
+        return 0
+    if not res.get('violates') and art.get('shard') is not None \
+            and not str(art.get('kind', '')).startswith('finding:'):
+        # clean in isolation: replay the call history (each stage in its own fresh interpreter)
+        for st in ('shard', 'history'):
+            if st == 'history' and not art.get('worker_history'):
+                continue
+            p = subprocess.run([sys.executable, '-m', 'mc.runner', prop_id, '--replay', path,
+                                '--stage', st], cwd=ROOT, stdout=subprocess.PIPE,
+                               stderr=subprocess.PIPE, env=dict(os.environ, PYTHONHASHSEED='0'))
+            lines = [l for l in p.stdout.decode().splitlines() if l.startswith('STAGE-RESULT ')]
+            if lines:
+                r2 = json.loads(lines[-1][len('STAGE-RESULT '):])
+                if r2.get('violates'):
+                    res = r2
+                    break
     known = set(f['id'] for f in load_known()['findings']
                 if f.get('status') == 'known' and f.get('property') == prop_id)
     print('REPLAY property=%s kind=%s' % (prop_id, art.get('kind')))
@@ -167,13 +222,14 @@ def main(argv=None):
     ap.add_argument('prop')
     ap.add_argument('--tier', default=os.environ.get('VERIF_TIER') or 'quick')
     ap.add_argument('--replay')
+    ap.add_argument('--stage', choices=['case', 'shard', 'history'])
     ap.add_argument('--workers', type=int, default=int(os.environ.get('VERIF_WORKERS', '0')))
     ap.add_argument('--budget', type=float, default=float(os.environ.get('VERIF_BUDGET_S', '0')))
     a = ap.parse_args(argv)
     prop_id = a.prop
     mod = importlib.import_module('mc.props.' + prop_id)
     if a.replay:
-        return do_replay(mod, prop_id, a.replay)
+        return do_replay(mod, prop_id, a.replay, a.stage)
 
     tier = a.tier if a.tier in ('quick', 'thorough') else 'quick'
     try:
